@@ -65,6 +65,9 @@ func drvCase(c *ctx, r *rng.R, path string, bind int, arr []arrival, special str
 				rs.close()
 				continue
 			}
+			if ts != nil {
+				ts.stall = special == "stall" // the TCP endpoint accepts and never answers
+			}
 			endpoint = rs.addr()
 			closeFn = func() {
 				rs.close()
@@ -168,6 +171,7 @@ func streamDrv(c *ctx) {
 	for _, arr := range [][]arrival{{}, {{8, "valid"}}, {{int(T.Milliseconds()) * 18 / 10, "valid"}}, {{8, "short"}}} {
 		jobs = append(jobs, job{"any", 0, arr, "none", r.U64(), false})
 	}
+	jobs = append(jobs, job{"any", 0, []arrival{}, "stall", r.U64(), false}) // silent on UDP, and a TCP endpoint on the same port that would stall
 	// a valid reply that arrives in two separately delivered pieces (10 + 54 bytes, 50 ms apart)
 	for _, path := range []string{"tcp", "udp", "broadcast"} {
 		jobs = append(jobs, job{path, 0, []arrival{{8, "part1"}, {58, "part2"}}, "none", r.U64(), false})
